@@ -882,6 +882,11 @@ def execWdrStep (ins : List WdrIn) (s : State) (k : Nat × Nat × Nat) : Option 
   let i := (ins.find? fun x => x.pool == k.2.1 && x.id == k.2.2).getD { pool := k.2.1, id := k.2.2, x := 0, y := 0 }
   execWithdraw s k.1 k.2.1 k.2.2 i.x i.y
 
+/-- keys of a store iteration: every key once (`IterateAllPairs` walks a KV store, whose keys are unique) -/
+def dedupKeys : List (Nat × Nat) → List (Nat × Nat)
+  | [] => []
+  | x :: t => if x ∈ dedupKeys t then dedupKeys t else x :: dedupKeys t
+
 /-- `ExecuteRequests` + `ProcessQueuedFarmers` for one app (abci.go EndBlocker body) -/
 def endBlock (cfg : Cfg) (s : State) (app : Nat) (ms : List MatchIn) (dins : List DepIn) (wins : List WdrIn) :
     Option State :=
@@ -889,7 +894,7 @@ def endBlock (cfg : Cfg) (s : State) (app : Nat) (ms : List MatchIn) (dins : Lis
   | none => none
   | some ac =>
     if s.height % ac.batchSize ≠ 0 then some s else
-    let pks := (s.pairs.filter (·.app == app)).map fun p => (p.app, p.id)
+    let pks := dedupKeys ((s.pairs.filter (·.app == app)).map fun p => (p.app, p.id))
     match foldOpt (execMatching cfg ms) s pks with
     | none => none
     | some s1 =>
